@@ -111,6 +111,9 @@ func c02ops() []c02op {
 		{"assoc-vec", []int{mV}, same, func(a []string, c int) string { return f("(assoc %s 0 %d)", a[0], c) }, nil},
 		{"assoc-map", []int{mM}, same, func(a []string, c int) string { return f("(assoc %s :a %d :c%d %d)", a[0], c, c, c) }, nil},
 		{"assoc-set", []int{mS}, same, func(a []string, c int) string { return f(`(assoc %s "k%d")`, a[0], c) }, nil},
+		// an empty map put inside a map (the inner map is a value of its own: a later assoc-in / update-in
+		// through it must build a new inner map, not fill the existing one)
+		{"assoc-map-empty-inner", []int{mM}, same, func(a []string, c int) string { return f("(assoc %s :n {} :c%d {})", a[0], c) }, nil},
 		{"dissoc-map", []int{mM}, same, func(a []string, c int) string { return f("(dissoc %s :a)", a[0]) }, nil},
 		{"dissoc-set", []int{mS}, same, func(a []string, c int) string { return f(`(dissoc %s "a")`, a[0]) }, nil},
 		{"subvec01", []int{mV}, same, func(a []string, c int) string { return f("(subvec %s 0 1)", a[0]) }, nil},
